@@ -15,6 +15,7 @@ import EinoV.Proofs.C03Engine
 import EinoV.Proofs.C02Confluence
 import EinoV.Proofs.C02CompileWF
 import EinoV.Proofs.C02CompileWWF
+import EinoV.Proofs.C02LockStep
 import EinoV.Proofs.C02EagerConfluence
 import EinoV.Model.C03Loop
 import EinoV.Proofs.C03Loop
@@ -633,6 +634,32 @@ theorem compiled_workflow_result_completion_order_independent {V : Type} (ops : 
   have c := compileW_wf ops w h
   ⟨runEager_result_pick_independent ops hm _ c.1 c.2.1 c.2.2 pA pB x vA vB hA hB,
    runEager_agrees_with_batch ops hm _ c.1 c.2.1 c.2.2 pA sched hf x vA vS hA hS⟩
+
+open EinoV.Engine EinoV.Engine.DagRun in
+/-- **dag_steps_schedule_independent** (lock step).  Not only the result: *which nodes run in which
+    step on which input* does not depend on the completion order.  For a well-formed acyclic
+    all-predecessor runner, a permutation-invariant merge, every input and any two fair schedules,
+    the `j`-th steps of the two runs — whenever both runs get that far — consist of the same
+    tasks (node key and input).  (From justification + completeness + at-most-once + exact inputs of
+    each run, by induction on `j`; no simulation of one run by the other.) -/
+theorem dag_steps_schedule_independent {V : Type} (ops : ValOps V) (hm : MergePerm ops) (r : Runner V)
+    (wf : DagWF r) (wf2 : DagWF2 r) (wf3 : DagWF3 r) (sA sB : Sched V) (hfA : sA.Fair) (hfB : sB.Fair) (x : V)
+    (j : Nat) (stA stB : List (Key × V)) (hA : (runS ops r sA x).trace[j]? = some stA)
+    (hB : (runS ops r sB x).trace[j]? = some stB) : ∀ t, t ∈ stA ↔ t ∈ stB :=
+  run_steps_sched_independent ops hm r wf wf2 wf3 sA sB hfA hfB x j stA stB hA hB
+
+open EinoV.Engine EinoV.Engine.DagRun in
+/-- **dag_returning_run_is_not_outlasted.** If a run returns a value, no run under another fair
+    schedule executes more steps: it has executed the same tasks by then, so END is enabled, and a
+    run never goes on once END is enabled (`C02.dag_returns_as_soon_as_end_is_enabled`).
+    What is *not* proved: that the other run returns a value too — it could still fail inside the
+    scheduling round (a branch condition or a merge failing under one order and not the other is
+    excluded only for its tasks, which are the same); see DESIGN.md §7. -/
+theorem dag_returning_run_is_not_outlasted {V : Type} (ops : ValOps V) (hm : MergePerm ops) (r : Runner V)
+    (wf : DagWF r) (wf2 : DagWF2 r) (wf3 : DagWF3 r) (sA sB : Sched V) (hfA : sA.Fair) (hfB : sB.Fair) (x v : V)
+    (hA : (runS ops r sA x).result = .ok v) :
+    (runS ops r sB x).trace.length ≤ (runS ops r sA x).trace.length :=
+  run_ok_not_outlasted ops hm r wf wf2 wf3 sA sB hfA hfB x v hA
 
 open EinoV.Engine EinoV.Engine.DagRun in
 /-- **dag_wf3_check_sound.** The executable check of `DagWF3` (evaluated by the C02 oracle on every
